@@ -68,7 +68,7 @@ def main(ctx):
         raise vf.CheckerBroken("PartialModel.v does not compile: " + out[-500:])
     bindir = ctx.harness(GROUP, profile="release", bins=["c04"])
     cases = ctx.gen_exec(bindir, "c04", ctx.n(200, 1000), inputs=ctx.replay_inputs())
-    dis = one_pass(ctx, "partial_run+run-vs-run", cases, "agree4", "prop_ok4", "show4", 25,
+    dis = one_pass(ctx, "partial_run+run-vs-run", cases, "agree4", "prop_ok4", "show4", 13 if ctx.quick() else 25,
                    "Exec.PartialModel.prop_ok4 (completing a partial run = full run, for all input subsets)")
     ctx.extra["prune_model_disagreements"] = len(dis)
     if dis:
